@@ -162,6 +162,12 @@ class Interp:
         if f is None or "mir" not in f:
             raise Undecided("no MIR for local function " + fnkey)
         self.fn_seen.add(fnkey)
+        if fnkey in st.meta.get("watch", ()):
+            st.events.append(("call", fnkey))
+        if st.meta.get("stop_call") == fnkey:
+            st.meta["stop_args"] = tuple(args)
+            st.meta["stopped_at"] = "call"
+            raise LoopHeadReached()
         mir = f["mir"]
         if len(args) != mir["arg_count"]:
             raise Undecided("arity mismatch calling %s: %d vs %d" % (fnkey, len(args), mir["arg_count"]))
@@ -1007,6 +1013,21 @@ class Interp:
                 tup = args[1] if len(args) > 1 else UNIT
                 targs = list(tup.items) if isinstance(tup, VTuple) else []
                 return self.call_closure(st, clv, targs, dest, target, span)
+            stubs = st.meta.get("stubs")
+            if stubs and key in stubs:
+                n = st.meta.get("stub_count", {}).get(key, 0)
+                vals = stubs[key]
+                if n >= len(vals):
+                    raise Undecided("more calls of the stubbed function %s than the step provides for" % key)
+                sc_ = dict(st.meta.get("stub_count", {}))
+                sc_[key] = n + 1
+                st.meta["stub_count"] = sc_
+                snap = []
+                for a_ in args:
+                    av = self.force(st, a_)
+                    snap.append(self.force(st, self.load(st, av.root, av.path)) if isinstance(av, VRef) else av)
+                st.events.append(("stub-call", key, n, tuple(args), tuple(snap)))
+                return ("imm", vals[n])
             self.push_call(st, key, args, dest, target, span)
             return None
         name = c.get("path") or c.get("decl")
